@@ -41,7 +41,7 @@ func corrExcl(o corrOpts) *res.Summary {
 	defer os.RemoveAll(dir)
 	var specs []genSpec
 	for i := 0; i < n; i++ {
-		specs = append(specs, genSpec{r.U64() % 1000000007, gen.Options{Root: fmt.Sprintf("k%da", i), TestFiles: true, Ignores: i%2 == 0, NearMiss: i%4 == 0}})
+		specs = append(specs, genSpec{seed: r.U64() % 1000000007, o: gen.Options{Root: fmt.Sprintf("k%da", i), TestFiles: true, Ignores: i%2 == 0, NearMiss: i%4 == 0}})
 	}
 	mods, err := writeModule(dir, specs)
 	if err != nil {
